@@ -415,6 +415,18 @@ func runC02(r *rt.Runner) {
 // c02Pinned: regression programs for findings (DESIGN.md section 6) and
 // hand-picked alias/overflow situations.
 var c02Pinned = []string{
+	// `[`, `<<` and `mark` push the same mark object: any of the three closers
+	// works with any of them
+	"[ /a 1 /b (x) >> /a get",
+	"7 << 1 2 3 ] length",
+	"mark /a 1 >> /a get",
+	"mark 1 2 ] 1 get",
+	"[ 1 2 cleartomark 5",
+	"<< 1 2 cleartomark 5",
+	"[ << /a 1 ] 1 get exch pop",
+	"<< [ 1 2 >> length exch pop",
+	"<< /k [ 1 2 ] >> /k get 1 get",
+	"[ mark 1 ] counttomark",
 	"0 -9223372036854775808 sub",
 	"-1 -9223372036854775808 mul",
 	"9223372036854775807 1 add",
@@ -560,4 +572,22 @@ func genDataProgram(c *rt.C, env *psEnv, pool []poolItem) []ref.Tok {
 		}
 	}
 	return prog
+}
+
+// rolls of 6..70 elements on a stack that has never been deeper: an
+// implementation that rotates in place using spare capacity of the stack's
+// backing array meets every capacity boundary of a growing slice here
+func init() {
+	for d := 6; d <= 70; d++ {
+		var sb strings.Builder
+		for i := 1; i <= d; i++ {
+			fmt.Fprintf(&sb, "%d ", i)
+		}
+		for _, j := range []int{3, -3, d / 2, -(d / 2), d - 1, 1 - d} {
+			c02Pinned = append(c02Pinned, fmt.Sprintf("%s%d %d roll", sb.String(), d, j))
+			if d%8 == 0 {
+				c02Pinned = append(c02Pinned, fmt.Sprintf("(x) /y %s%d %d roll", sb.String(), d, j))
+			}
+		}
+	}
 }
